@@ -1423,6 +1423,7 @@ func checkAuxWiring(w *World, r *Report, runs *motionRuns) {
 			if role == roleContinuous {
 				// SetAsConstantRecorder called on it
 				called := false
+				var setter *ssa.Function
 				for _, t := range dyn {
 					_ = t
 				}
@@ -1431,11 +1432,34 @@ func checkAuxWiring(w *World, r *Report, runs *motionRuns) {
 						if call, ok := in.(*ssa.Call); ok {
 							if callee := call.Call.StaticCallee(); callee != nil && callee.Name() == "SetAsConstantRecorder" {
 								called = true
+								setter = callee
 							}
 						}
 					}
 				}
 				r.Check(called, "V5", "daemon wiring: the continuous recorder is put into constant-recorder mode", w.InstrPos(st.Call), "")
+				// ... whatever else the setter does (the folder may exist already: every connection after the first):
+				// the mode flag and the folder are set on every path through it
+				if setter != nil && len(setter.Params) > 0 {
+					nSet := 0
+					for _, sb := range setter.Blocks {
+						for _, sin := range sb.Instrs {
+							sst, ok := sin.(*ssa.Store)
+							if !ok {
+								continue
+							}
+							fa, ok := sst.Addr.(*ssa.FieldAddr)
+							if !ok || fa.X != ssa.Value(setter.Params[0]) {
+								continue
+							}
+							nSet++
+							this := sin
+							skipped := returnsWithout(setter, func(x ssa.Instruction) bool { return x == this })
+							r.Check(!skipped, "V5", "constant-recorder mode: "+structOf(fa.X.Type()).Field(fa.Field).Name()+" is set on every path of "+setter.Name(), w.InstrPos(sin), "")
+						}
+					}
+					r.Check(nSet >= 2, "V5", "constant-recorder mode sets its flag and its folder", w.Pos(setter.Pos()), fmt.Sprint(nSet))
+				}
 			}
 		}
 	}
